@@ -470,28 +470,43 @@ func confirmCase(c *Check, f *Family, tier string, i int64, limit time.Duration)
 		return "ok", ""
 	}
 	defer os.RemoveAll(tmp)
-	hangs, deaths := 0, 0
+	hangs, deaths, oks := 0, 0, 0
 	const runs = 2
+	var mu sync.Mutex
+	var wg sync.WaitGroup
 	for k := 0; k < runs; k++ {
-		cc := exec.Command(exe, c.ID, tier, "--family", f.Name, "--shard", "0/1", "--only", strconv.FormatInt(i, 10), "--out", filepath.Join(tmp, fmt.Sprintf("o%d", k)))
-		var eb bytes.Buffer
-		cc.Stderr = &tailWriter{buf: &eb, max: 1 << 16, headOnly: true}
-		killed := int32(0)
-		if err := cc.Start(); err != nil {
-			return "ok", ""
-		}
-		ct := time.AfterFunc(limit, func() { atomic.StoreInt32(&killed, 1); cc.Process.Kill() })
-		werr := cc.Wait()
-		ct.Stop()
-		switch {
-		case atomic.LoadInt32(&killed) != 0:
-			hangs++
-		case werr != nil:
-			deaths++
-			detail = fmt.Sprintf("%v: %s", werr, eb.String())
-		default:
-			return "ok", ""
-		}
+		wg.Add(1)
+		go func(k int) {
+			defer wg.Done()
+			cc := exec.Command(exe, c.ID, tier, "--family", f.Name, "--shard", "0/1", "--only", strconv.FormatInt(i, 10), "--out", filepath.Join(tmp, fmt.Sprintf("o%d", k)))
+			var eb bytes.Buffer
+			cc.Stderr = &tailWriter{buf: &eb, max: 1 << 16, headOnly: true}
+			killed := int32(0)
+			if err := cc.Start(); err != nil {
+				mu.Lock()
+				oks++
+				mu.Unlock()
+				return
+			}
+			ct := time.AfterFunc(limit, func() { atomic.StoreInt32(&killed, 1); cc.Process.Kill() })
+			werr := cc.Wait()
+			ct.Stop()
+			mu.Lock()
+			defer mu.Unlock()
+			switch {
+			case atomic.LoadInt32(&killed) != 0:
+				hangs++
+			case werr != nil:
+				deaths++
+				detail = fmt.Sprintf("%v: %s", werr, eb.String())
+			default:
+				oks++
+			}
+		}(k)
+	}
+	wg.Wait()
+	if oks > 0 {
+		return "ok", ""
 	}
 	if hangs == runs {
 		return "hang", ""
